@@ -785,16 +785,25 @@ Proof. intros H. specialize (H [HCancel CBusy; HUse KClosVar VEval]). vm_compute
 
 (** ---------------------------------------------------------------- the slot of a function literal *)
 
-Lemma literal_slot_refuted :
-  crashed (slot_run slot_witness) = true
-  /\ started (slot_run [SLit 1; SGo; SLit 2; SGo; SLit 3; SGo]) = [3; 2; 1].
+(** regression (finding C09-literal-slot, repaired by abe7a69): the former crash witness starts the
+    three literals, in order, and nothing calls the nil function *)
+Lemma literal_slot_regression :
+  crashed (slot_run slot_witness) = false /\ started (slot_run slot_witness) = [3; 2; 1].
 Proof. vm_compute. auto. Qed.
 
-(** a go statement that directly follows its literal starts that literal's value, whatever happened before *)
-Lemma literal_slot_adjacent l g :
-  crashed (slot_run l) = false ->
-  let s := slot_run (l ++ [SLit g; SGo]) in crashed s = false /\ hd_error (started s) = Some g.
+Lemma slot_rets s rets : forallb is_ret rets = true -> fold_left slot_step rets s = s.
 Proof.
-  intros H. unfold slot_run in *. rewrite fold_left_app. simpl.
-  destruct (fold_left slot_step l (mkSlot None [] [] false)); simpl in *. auto.
+  revert s; induction rets as [|e rets IH]; intros s H; simpl in *; auto.
+  destruct e; simpl in *; try discriminate. apply IH; auto.
+Qed.
+
+(** whatever happened before and however many calls return between a literal and its go statement,
+    the go statement starts that literal's value *)
+Lemma literal_slot_returns_harmless l g rets :
+  crashed (slot_run l) = false -> forallb is_ret rets = true ->
+  let s := slot_run (l ++ SLit g :: rets ++ [SGo]) in crashed s = false /\ hd_error (started s) = Some g.
+Proof.
+  intros H Hr. unfold slot_run in *. rewrite fold_left_app. cbn [fold_left].
+  rewrite fold_left_app, (slot_rets _ rets Hr).
+  destruct (fold_left slot_step l (mkSlot None [] false)); simpl in *. auto.
 Qed.
